@@ -13,6 +13,11 @@ before.  Three parties are compared:
   processor holds on a composed state iff it held on the pulled-back state, illegal mappings are rejected.
 
 `violation` = the direct oracle fails on the real code; `broken` = only model and code disagree.
+
+A processor is long-lived: the scenario goes on after an add that was refused cleanly by the mapping check, and
+which modes are *available* for the next add is decided from the public `heralds` / `detectors` lists (`avail_of`),
+never from the `is_mode_connectible` flag the code under test consults — after every accepted add the two must
+agree (`availability_failure` turns a disagreement into a concrete add on that mode).
 """
 from __future__ import annotations
 
@@ -241,7 +246,52 @@ def observe_proc(p):
     o["has_ps"] = p.post_select_fn is not None
     o["U"] = np.array(p.linear_circuit().compute_unitary(), dtype=complex)
     o["clist"] = comp_list(p)
+    o["avail"] = avail_of(o)
     return o
+
+
+def avail_of(o):
+    """which modes the property calls *available* for a mapping, from the public `heralds` and `detectors` only: a
+    mode is reserved when it is heralded (declared with add_herald or imported by an earlier composition) or ends in
+    a detector.  Deliberately NOT read from `is_mode_connectible` (the flag the code under test consults): `conn`
+    above is that flag, and the two must agree after any history (see `availability_failure`)."""
+    hm = {h[0] for h in o["heralds"]}
+    dets = o["dets"]
+    return [(k not in hm) and (k >= len(dets) or dets[k] is None) for k in range(o["cs"])]
+
+
+def reserved_why(o, k):
+    if k in {h[0] for h in o["heralds"]}:
+        return "is listed in `heralds`"
+    return "ends in a detector"
+
+
+def availability_failure(p, o, when):
+    """The flag `is_mode_connectible` must say exactly what `heralds` / `detectors` say, whatever sequence of adds
+    produced the processor.  Where they differ, the clause of the property is evaluated directly: a one-mode phase
+    shifter is plugged on that mode through the public API, which must be refused on a reserved mode (and accepted
+    on a free one).  -> failure tuple or None.  Never reached on a consistent processor."""
+    import perceval as pcvl
+    from perceval.components import PS
+    for k in range(o["cs"]):
+        if o["conn"][k] == o["avail"][k]:
+            continue
+        try:
+            p.add(k, PS(0.25))
+            acc, cls = True, None
+        except Exception as e:  # noqa: the class is the observable
+            acc, cls = False, type(e).__name__
+        if not o["avail"][k] and acc:
+            return ("violation", "illegal-mapping-accepted",
+                    f"{when}, mode {k} {reserved_why(o, k)} (heralds {o['heralds']}, detectors {o['dets']}) but "
+                    f"Processor.add({k}, PS) — an unavailable mode — is accepted instead of being rejected")
+        if o["avail"][k] and not acc:
+            return ("violation", "legal-mapping-rejected-reserved",
+                    f"{when}, mode {k} is neither heralded nor detected, yet Processor.add({k}, PS) raised {cls}")
+        return ("broken", "availability-flag",
+                f"{when}, is_mode_connectible({k}) = {o['conn'][k]} contradicts heralds {o['heralds']} / detectors "
+                f"{o['dets']} although Processor.add({k}, PS) behaves as the lists say")
+    return None
 
 
 def comp_list(p):
@@ -424,7 +474,7 @@ def intended_mapping(L, R, ms):
     vals = [v for _, v in pairs]
     if len(pairs) != len(rm) or len(set(keys)) != len(keys) or len(set(vals)) != len(vals):
         return None
-    if any(k < 0 or k >= L["cs"] or not L["conn"][k] for k in keys):
+    if any(k < 0 or k >= L["cs"] or not L["avail"][k] for k in keys):
         return None
     if sorted(vals) != rm:
         return None
@@ -497,6 +547,9 @@ def oracle_book(L, R, mp, after, keep_port):
     exp_d = L["dets"] + [R["dets"][h[0]] for h in R["heralds"]]
     if after["dets"] != exp_d:
         return ("herald-detectors", f"detectors {after['dets']} != expected {exp_d}")
+    if after["m"] != L["m"] or after["m"] != after["cs"] - len(after["heralds"]):
+        return ("modes-of-interest", f"m = {after['m']} after the add (was {L['m']}; circuit_size {after['cs']} with "
+                                     f"{len(after['heralds'])} heralds)")
     # names of the transferred heralds (user-given names are kept, the others are auto-generated)
     for names in (after["in_names"], after["out_names"]):
         if names is None:
@@ -523,7 +576,8 @@ def pullback(s, L, R, mp):
 # ------------------------------------------------------------------------------------------------
 def lean_request(L, R, ms, keep_port, lps, rps, states, fix_name=True, fix_ps=True, fix_ports=True):
     def side(o, ps):
-        return {"comp": o["comp"], "m": o["m"], "cs": o["cs"], "conn": o.get("conn", [True] * o["cs"]),
+        return {"comp": o["comp"], "m": o["m"], "cs": o["cs"],
+                "conn": o.get("avail", o.get("conn", [True] * o["cs"])),
                 "heralds": o["heralds"], "dets": o["dets"], "outp": o["outp"], "inp": o["inp"],
                 "out_names": o.get("raw_out_names") or [], "in_names": o.get("raw_in_names") or [],
                 "ps": ps, "U": core.mat(o["U"].tolist())}
@@ -572,6 +626,8 @@ def compare_model(rep, after, tt_real, states):
         diffs.append("heralds")
     if rep["dets"] != after["dets"]:
         diffs.append("dets")
+    if rep.get("conn") != after["conn"]:
+        diffs.append(f"connectible model={rep.get('conn')} real={after['conn']}")
     if canon_reply_names(rep["in_names"]) != after["in_names"]:
         diffs.append(f"in_names model={rep['in_names']} real={after['in_names']}")
     if canon_reply_names(rep["out_names"]) != after["out_names"]:
@@ -688,6 +744,12 @@ def run_step(p, L, lps, st, ask, reuse_obj=None, R_pre=None):
                             L, lps, info)
             if not np.allclose(again["U"], L["U"], atol=1e-9):
                 return (("violation", "rejected-but-modified", "a rejected mapping changed the circuit"), L, lps, info)
+            if again["conn"] != L["conn"] or again["has_ps"] != L["has_ps"]:
+                return (("violation", "rejected-but-modified",
+                         f"a mapping rejected with {err} changed the mode availability / post-selection"), L, lps, info)
+            # refused cleanly by the mapping check and verified untouched: the processor lives on, the scenario too
+            info["continues"] = True
+            return None, L, lps, info
         return None, None, None, info      # the processor may be half-modified: stop the scenario here
     # ---- accepted by the real code
     try:
@@ -702,6 +764,12 @@ def run_step(p, L, lps, st, ask, reuse_obj=None, R_pre=None):
                  f"({type(e).__name__}: {str(e)[:120]})"), None, None, info)
     after["ps_conds"] = real_ps_conds(p)
     info["after"] = after
+    if mp is not None:
+        # the state this add leaves behind decides what the NEXT add may use
+        bad = availability_failure(p, after, f"after the accepted add of {'a component' if R['comp'] else 'a processor'} "
+                                             f"through {ms.get('v', ms.get('items'))}")
+        if bad is not None:
+            return (bad, None, None, info)
     if mp is None:
         if "err" in rep or nomodel:
             return (("violation", "illegal-mapping-accepted",
@@ -797,6 +865,10 @@ def _run_scenario(scn, ask, on_step=None):
         L = _observe_built(p, "the left processor")
     except Unusable as e:
         return ("violation", "composed-processor-unusable", str(e))
+    bad = availability_failure(p, L, "on the left processor as declared")
+    if bad is not None:
+        return bad
+    L["cs0"] = L["cs"]
     lps = left_ps_of(scn["left"])
     prev = None
     for i, st in enumerate(scn["steps"]):
@@ -821,6 +893,9 @@ def _run_scenario(scn, ask, on_step=None):
             return fail
         if L2 is None:
             return None
+        L2.setdefault("cs0", L["cs0"])
+        if info.get("continues"):
+            L2["after_rejection"] = True
         L, lps = L2, lps2
     return None
 
@@ -931,13 +1006,65 @@ def left_shape(spec):
     return [k for k in range(spec["cs"]) if k not in bad]
 
 
-def gen_mapping(rng, lspec, rspec, lnames=None, rnames=None, malformed=False):
+def evolved_shape(lspec, steps):
+    """(circuit size, available modes, reserved modes, imported herald modes) of the left processor after `steps`
+    (each processor step appends one reserved mode per herald of the added processor; computed from the specs, assuming
+    the steps are accepted — when one is not, later mappings are merely a little more often illegal)"""
+    cs = lspec["cs"]
+    avail = left_shape(lspec)
+    imported = []
+    for st in steps:
+        _, hs = right_shape(st["right"])
+        imported += list(range(cs, cs + len(hs)))
+        cs += len(hs)
+    reserved = [k for k in range(cs) if k not in avail]
+    return cs, avail, reserved, imported
+
+
+def gen_reserved_mapping(rng, shape, rspec, prefer_imported=True):
+    """a mapping whose ONLY fault is that it reaches a reserved mode (heralded — declared or imported by an earlier
+    add — or detected): right size, distinct modes inside the circuit, every syntax"""
+    cs, avail, reserved, imported = shape
     n, hs = right_shape(rspec)
     rm = [x for x in range(n + len(hs)) if x not in hs]
-    avail = left_shape(lspec)
-    cs = lspec["cs"]
+    pool = imported if (imported and prefer_imported and rng.random() < 0.75) else reserved
+    if not pool or n < 1:
+        return None
+    u = rng.choice(pool)
+    form = rng.choice(["int", "list", "list", "tuple", "dict", "dict"])
+    if form == "int":
+        starts = [s for s in range(max(0, u - n + 1), min(u, cs - n) + 1)]
+        if starts:
+            return {"form": "int", "v": rng.choice(starts)}
+        form = "list"
+    others = [k for k in avail if k != u]
+    if len(others) < n - 1:
+        others = [k for k in range(cs) if k != u]
+    if len(others) < n - 1:
+        return None
+    keys = rng.sample(others, n - 1)
+    keys.insert(rng.randrange(n), u)
+    if form in ("list", "tuple"):
+        return {"form": form, "v": keys}
+    vals = rm[:]
+    rng.shuffle(vals)
+    return {"form": "dict", "items": [[k, v] for k, v in zip(keys, vals)]}
+
+
+def gen_mapping(rng, lspec, rspec, lnames=None, rnames=None, malformed=False, shape=None):
+    n, hs = right_shape(rspec)
+    rm = [x for x in range(n + len(hs)) if x not in hs]
+    if shape is None:
+        shape = evolved_shape(lspec, [])
+    cs, avail = shape[0], shape[1]
     if malformed:
-        how = rng.choice(["short", "long", "dupkey", "dupval", "unavail", "neg", "range", "badval", "offend"])
+        how = rng.choice(["short", "long", "dupkey", "dupval", "unavail", "neg", "range", "badval", "offend",
+                          "reserved", "reserved"])
+        if how == "reserved":
+            ms = gen_reserved_mapping(rng, shape, rspec)
+            if ms is not None:
+                return ms
+            how = "unavail"
         if how == "short":
             keys = rng.sample(range(cs), min(cs, max(0, n - 1)))
             return {"form": rng.choice(["list", "dict"]), "v": keys, "items": [[k, rm[i]] for i, k in enumerate(keys)]}
@@ -1139,9 +1266,12 @@ def gen_scenario(rng, max_cs, malformed=False):
     left = gen_left(rng, max_cs)
     n_conn = len(left_shape(left))
     steps = []
-    for i in range(rng.choice([1, 1, 2, 3])):
+    n_steps = rng.choice([1, 1, 2, 3])
+    bad_step = rng.randrange(n_steps) if malformed else -1     # the illegal mapping may come at any point of the history
+    for i in range(n_steps):
         right = gen_right(rng, max(1, min(n_conn, 4)))
-        ms = gen_mapping(rng, left, right, malformed=(malformed and i == 0))
+        shape = evolved_shape(left, steps)
+        ms = gen_mapping(rng, left, right, malformed=(i == bad_step), shape=shape)
         steps.append({"right": right, "map": ms, "keep_port": rng.random() < 0.8,
                       "reuse": i > 0 and rng.random() < 0.3})
         if i > 0 and steps[-1]["reuse"]:
@@ -1151,7 +1281,39 @@ def gen_scenario(rng, max_cs, malformed=False):
                 steps[-2]["right"]["at"] = steps[-2]["right"]["at"][:len(steps[-2]["right"]["extra"])]
             steps[-1]["right"] = steps[-2]["right"]
             n, hs = right_shape(steps[-1]["right"])
-            steps[-1]["map"] = gen_mapping(rng, left, steps[-1]["right"])
+            steps[-1]["map"] = gen_mapping(rng, left, steps[-1]["right"], malformed=(i == bad_step), shape=shape)
+    return {"left": left, "steps": steps}
+
+
+def gen_scenario_reserved(rng, max_cs):
+    """a long-lived processor: a left processor (heralds / detectors declared or not), 1-2 legal adds of which at
+    least one imports heralded modes, then 1-3 adds — components, circuits, processors, through every mapping syntax —
+    that reach a mode reserved by that history (mostly an imported herald mode), interleaved with legal ones.  Each
+    illegal add must be refused and leave the processor as it was; the scenario goes on after a refusal."""
+    for _ in range(20):
+        left = gen_left(rng, max_cs)
+        if len(left_shape(left)) >= 1:
+            break
+    n_conn = len(left_shape(left))
+    steps = []
+    for i in range(rng.choice([1, 1, 2])):
+        right = None
+        for _ in range(30):
+            right = gen_right(rng, max(1, min(n_conn, 3)), want=("proc" if i == 0 else None))
+            n, hs = right_shape(right)
+            if n <= n_conn and (i > 0 or hs):
+                break
+        # no left post-selection games here: drop a right post-selection that could be refused for other reasons
+        steps.append({"right": right, "map": gen_mapping(rng, left, right, shape=evolved_shape(left, steps)),
+                      "keep_port": rng.random() < 0.8, "reuse": False})
+    for j in range(rng.choice([1, 2, 2, 3])):
+        shape = evolved_shape(left, steps)
+        right = gen_right(rng, max(1, min(n_conn, 3)))
+        if rng.random() < 0.25 and j > 0:
+            ms = gen_mapping(rng, left, right, shape=shape)              # a legal add in between
+        else:
+            ms = gen_reserved_mapping(rng, shape, right) or gen_mapping(rng, left, right, malformed=True, shape=shape)
+        steps.append({"right": right, "map": ms, "keep_port": rng.random() < 0.8, "reuse": False})
     return {"left": left, "steps": steps}
 
 
@@ -1183,6 +1345,26 @@ class Runner:
         chk.branch("form-" + ms["form"])
         if ms["form"] == "dict" and any(isinstance(k, str) for k, _ in ms["items"]):
             chk.branch("port-names")
+        if L.get("after_rejection"):
+            chk.branch("continued-after-rejection")
+        # mappings that reach a reserved mode of the processor as its history left it
+        hm = {h[0] for h in L["heralds"]}
+        hit = [k for k in named_left_modes(ms, L, R) if 0 <= k < L["cs"] and not L["avail"][k]]
+        if hit:
+            kinds = set()
+            for k in hit:
+                if k in hm:
+                    kinds.add("imported-herald" if k >= L.get("cs0", L["cs"]) else "declared-herald")
+                else:
+                    kinds.add("detector-mode")
+            only = intended_mapping(dict(L, avail=[True] * L["cs"]), R, ms) is not None
+            for kd in kinds:
+                chk.branch("probe-" + kd)
+                if only:
+                    chk.branch("probe-" + kd + "-only-fault")
+                chk.count("reserved_probe", f"{kd}/{ms['form']}/{'comp' if R['comp'] else 'proc'}/"
+                                            f"{'only-fault' if only else 'other-faults-too'}/"
+                                            f"{info.get('err', 'ACCEPTED')}")
         if "err" in info:
             chk.branch("rejected")
             chk.count("reject_class", info["err"])
@@ -1225,6 +1407,22 @@ class Runner:
                 chk.count("simplifier_shapes", ",".join(sorted(x[5:] for x in shapes)) or "none")
 
 
+def named_left_modes(ms, L, R):
+    """left modes a raw mapping names (before any legality check)"""
+    f = ms["form"]
+    if f == "int":
+        return [ms["v"] + i for i in range(R["m"])] if isinstance(ms["v"], int) else []
+    if f in ("list", "tuple"):
+        return [k for k in ms["v"] if isinstance(k, int)]
+    out = []
+    for k, _ in ms.get("items", []):
+        if isinstance(k, int):
+            out.append(k)
+        elif isinstance(k, str):
+            out += port_modes(L.get("raw_out_names"), k) or []
+    return out
+
+
 def finalize_named(scn, rng):
     """turn `named` mapping placeholders into real dict mappings using the objects' port names"""
     return scn
@@ -1243,7 +1441,11 @@ def prepare(scn, rng):
             if st["map"]["form"] == "named":
                 L, R = observe_proc(p), observe_right(right)
                 st["map"] = {"form": "dict", "items": name_items(st["map"]["items"], L, R, rng)}
-            p.add(py_mapping(st["map"]), right, keep_port=st.get("keep_port", True))
+            try:
+                p.add(py_mapping(st["map"]), right, keep_port=st.get("keep_port", True))
+            except Exception as e:
+                if type(e).__name__ not in RESOLVE_ERRS:   # a clean refusal leaves the processor usable
+                    raise
     except Exception:
         pass
     for st in scn["steps"]:
@@ -1405,7 +1607,11 @@ def run(chk: core.Check):
                 "whose right-hand processors engage every rewriting rule of the automatic simplification of the "
                 "inserted segment (phase shifters on one light path through 3-cycles, wrong-way decoys, exact "
                 "cancellation, adjacent non-commuting PERMs, a left processor ending with a PERM, processors that are "
-                "themselves results of compositions); distinct = distinct (sizes, right shape, mapping) "
+                "themselves results of compositions); plus long-lived processors: 1-2 legal adds importing heralded modes, "
+                "then adds (any object, any mapping syntax) whose only fault is to reach a mode reserved by that history "
+                "(imported herald, declared herald, detector), each to be refused leaving the processor untouched, the "
+                "scenario continuing after a clean refusal; after every accepted add is_mode_connectible must agree with "
+                "heralds/detectors (a disagreement is probed with a real add on that mode); distinct = distinct (sizes, right shape, mapping) "
                 "signatures; non-trivial = a non-consecutive or non-monotone mapping of >= 2 modes")
     chk.assumptions = [
         "matrices of the left processor and of the added object are taken from their own compute_unitary() "
@@ -1419,6 +1625,9 @@ def run(chk: core.Check):
                              "perm-at-offset", "no-perm", "right-heralds", "right-heralds-unsorted", "left-heralds",
                              "bare-component", "processor", "right-postselect", "second-composition",
                              "same-object-twice", "herald-detectors",
+                             "continued-after-rejection", "probe-imported-herald", "probe-declared-herald",
+                             "probe-detector-mode", "probe-imported-herald-only-fault",
+                             "probe-declared-herald-only-fault",
                              "nested-right", "left-trailing-perm-merged", "simp-perm-asym",
                              "simp-perm-successive-noncommuting", "simp-perm-nonsuccessive", "simp-ps-merge",
                              "simp-ps-merge-across-perm", "simp-ps-merge-across-asym-perm",
@@ -1442,6 +1651,17 @@ def run(chk: core.Check):
         scn = prepare(gen_scenario(rng, max_cs, malformed=(rng.random() < 0.12)), rng)
         try:
             handle(chk, runner, scn)
+        except core.LeanError:
+            raise
+        except GenInvalid:
+            chk.count("generator", "invalid-construction")
+    # long-lived processors: adds that reach a mode reserved by what was plugged before
+    n_r = chk.pick(250, 3000)
+    for i in range(n_r):
+        scn = prepare(gen_scenario_reserved(rng, max_cs), rng)
+        try:
+            handle(chk, runner, scn)
+            chk.count("generator", "reserved-mode-family")
         except core.LeanError:
             raise
         except GenInvalid:
